@@ -360,11 +360,29 @@ class Arena:
         self.used = 0
         self.bufs = []
         self.big = []
+        self.heap = []
+        self.libc = libc
+        libc.malloc.restype = ctypes.c_void_p
+        libc.malloc.argtypes = [ctypes.c_size_t]
+        libc.free.argtypes = [ctypes.c_void_p]
 
     def reset(self):
         self.used = 0
         self.bufs = []
         self.big = []
+        for p in self.heap:
+            self.libc.free(p)
+        self.heap = []
+
+    def place_heap(self, data):
+        """sanitizer runs: exact-size malloc'ed buffer (ASan red zones catch any read or write outside it)"""
+        n = len(data)
+        p = self.libc.malloc(max(n, 1))
+        if n:
+            ctypes.memmove(p, data, n)
+        self.heap.append(p)
+        self.bufs.append(('heap', p, n))
+        return p
 
     def place(self, data, right):
         """copy bytes into a fresh slot, right- or left-aligned; returns address"""
@@ -389,6 +407,8 @@ class Arena:
 
     def read(self, k):
         b = self.bufs[k]
+        if b[0] == 'heap':
+            return ctypes.string_at(b[1], b[2])
         if b[0] == 'big':
             raw, m, n = self.big[b[1]]
             return raw.raw[m:m + n]
@@ -396,6 +416,8 @@ class Arena:
 
     def margins_ok(self, k):
         b = self.bufs[k]
+        if b[0] == 'heap':
+            return True
         if b[0] == 'big':
             raw, m, n = self.big[b[1]]
             r = raw.raw
@@ -476,15 +498,15 @@ def run_compiled(call, san=False):
         if a.depth == 0:
             cargs.append(v if PRIM[a.prim][4] != 'b' else bool(v))
         elif a.depth == 1:
-            addr = ar.place(to_bytes(a.prim, v), right)
+            addr = ar.place_heap(to_bytes(a.prim, v)) if san else ar.place(to_bytes(a.prim, v), right)
             slots[a.name] = [len(ar.bufs) - 1]
             cargs.append(addr)
         else:
             ptrs, ks = [], []
             for row in v:
-                ptrs.append(ar.place(to_bytes(a.prim, row), right))
+                ptrs.append(ar.place_heap(to_bytes(a.prim, row)) if san else ar.place(to_bytes(a.prim, row), right))
                 ks.append(len(ar.bufs) - 1)
-            addr = ar.place(array.array('Q', ptrs).tobytes(), right)
+            addr = ar.place_heap(array.array('Q', ptrs).tobytes()) if san else ar.place(array.array('Q', ptrs).tobytes(), right)
             slots[a.name] = ks + [len(ar.bufs) - 1]
             cargs.append(addr)
     e = f(*cargs)
@@ -503,8 +525,8 @@ def run_compiled(call, san=False):
             now = from_bytes(a.prim, ar.read(ks[0]))
         else:
             now = [from_bytes(a.prim, ar.read(k)) for k in ks[:-1]]
-            if from_bytes('uint64_t', ar.read(ks[-1])) != [ar.bufs[k][1] if ar.bufs[k][0] != 'big' else None for k in ks[:-1]] \
-                    and all(ar.bufs[k][0] != 'big' for k in ks[:-1]):
+            if all(ar.bufs[k][0] != 'big' for k in ks[:-1]) and \
+                    from_bytes('uint64_t', ar.read(ks[-1])) != [ar.bufs[k][1] for k in ks[:-1]]:
                 res['inmod'].append(a.name + '(pointer table)')
         if a.dir == 'out' or not a.const:
             res['out'][a.name] = now
